@@ -3,11 +3,32 @@
 (* Reporting helpers for conformance modules.  A violated check prints one *)
 (* machine-readable record per violating case (all of them, not only the   *)
 (* first) and evaluates to FALSE, so TLC itself reports the violation.     *)
+(*                                                                         *)
+(* The budgeted variants (BadB, ReportAllB) are for state invariants run    *)
+(* with -continue: TLC prints the whole behaviour for every violating      *)
+(* state, so a change that breaks a property in tens of thousands of       *)
+(* product states would drown the run in output.  Each worker reports at   *)
+(* most Budget violating states PER PROPERTY (so one property's cases can  *)
+(* never crowd out another's) and lets further ones pass silently - the    *)
+(* property is already decided as violated by then.                        *)
 (***************************************************************************)
-EXTENDS TLC, Json, FiniteSets
+EXTENDS TLC, Json, FiniteSets, Naturals
 Emit(rec) == PrintT(<<"@@M", ToJson(rec)>>)
 Bad(rec) == Emit(rec) /\ FALSE
 Note(tag, rec) == PrintT(<<tag, ToJson(rec)>>)
 (* S = set of violating cases, Rec(x) = the record describing case x *)
 ReportAll(S, Rec(_)) == S = {} \/ ((\A x \in S : Emit(Rec(x))) /\ FALSE)
+
+Budget == 40
+PropReg == [ C01 |-> 11, C02 |-> 12, C03 |-> 13, C04 |-> 14, C05 |-> 15, C06 |-> 16, C07 |-> 17, C08 |-> 18,
+             C09 |-> 19, C10 |-> 20, C11 |-> 21, C12 |-> 22, C13 |-> 23, C14 |-> 24, C15 |-> 25, C16 |-> 26,
+             C17 |-> 27, C18 |-> 28, C19 |-> 29, C20 |-> 30 ]
+ASSUME BudgetInit == \A p \in DOMAIN PropReg : TLCSet(PropReg[p], 0)      \* copied to every worker
+Spent(prop) == TLCGet(PropReg[prop]) >= Budget
+Charge(prop) == TLCSet(PropReg[prop], TLCGet(PropReg[prop]) + 1)
+BadB(rec) == IF Spent(rec.prop) THEN TRUE ELSE (Charge(rec.prop) /\ Emit(rec) /\ FALSE)
+ReportAllB(S, Rec(_)) ==
+  IF S = {} THEN TRUE
+  ELSE LET p == Rec(CHOOSE x \in S : TRUE).prop IN
+       IF Spent(p) THEN TRUE ELSE (Charge(p) /\ (\A x \in S : Emit(Rec(x))) /\ FALSE)
 =============================================================================
